@@ -3,6 +3,7 @@ package main
 // Symbolic state: values, pointers, heap maps, allocation, merge, havoc.
 
 import (
+	"go/ast"
 	"fmt"
 	"go/types"
 	"math/big"
@@ -55,6 +56,7 @@ type State struct {
 	allocBase *Term
 	allocK    int64
 	wlog      *WriteLog
+	defers    []*ast.CallExpr // deferred plain calls registered on this path (run in reverse order at return)
 }
 
 type heapWrite struct {
@@ -75,6 +77,7 @@ var heapInitHook func(key string, m *Term)
 
 func (s *State) clone() *State {
 	n := &State{guard: s.guard, allocBase: s.allocBase, allocK: s.allocK, wlog: s.wlog}
+	n.defers = append([]*ast.CallExpr{}, s.defers...)
 	n.env = make(map[types.Object]*Value, len(s.env))
 	for k, v := range s.env {
 		n.env[k] = v
@@ -602,6 +605,15 @@ func (x *Exec) merge(a, b *State) *State {
 	}
 	c := a.guard
 	n := &State{guard: Or(a.guard, b.guard), wlog: a.wlog}
+	if len(a.defers) != len(b.defers) {
+		panic(engErr("paths with different sets of deferred calls meet (not supported)"))
+	}
+	for i := range a.defers {
+		if a.defers[i] != b.defers[i] {
+			panic(engErr("paths with different deferred calls meet (not supported)"))
+		}
+	}
+	n.defers = append([]*ast.CallExpr{}, a.defers...)
 	n.guard = x.nameBool(n.guard)
 	n.env = map[types.Object]*Value{}
 	for k, va := range a.env {
